@@ -72,6 +72,10 @@ def run(ctx):
     import pskel as _pskel
     _pskel.rule_P_PRIM(ctx)
     _pskel.rule_P_SKELETON(ctx)
+    # naming-law lints over the modules this property lives in (sibling slips: truth<->budget, stamp<->punctuation, left<->right, swapped arguments)
+    import roles as _roles
+    _roles.rule_R_ROLE(ctx, modules=('conversion::string::impl_lexical::parser', 'conversion::inter_type', 'enum_narsese::', 'lexical::'))
+    _roles.rule_A_NAMES(ctx, modules=('conversion::string::impl_lexical::parser', 'conversion::inter_type', 'enum_narsese::', 'lexical::'))
     ctx.undecided = ["the lower-bound half `a <= b` of the two `env[a..b]` sites (parse_items term region, segment_atom name region), the underflow "
                      "obligations `len - k`, and the closure slice of segment_atom rest on reviewed reasons (T-DISJOINT, P-GUARD); the upper bounds "
                      "of all lexical slice sites are machine-proved by B-LEN", "stack depth",
